@@ -71,6 +71,35 @@ fn programs() -> Vec<Prog> {
             next: vec![7, 2, 5, 4, 5, 6, 7, 8, 8],
             step_out: vec![None, Some(7), Some(7), Some(5), Some(5), Some(7), Some(7), None, None],
         },
+        // source lines that are assembled to several addresses: a loop body, a macro invoked twice. A breakpoint on
+        // such a line is a breakpoint at each of them
+        Prog {
+            name: "line-assembled-three-times",
+            source: ".test \"t\" {\n.loop 3 {\ninx\n}\nbrk\n}\n",
+            lines: vec![3, 3, 3, 5],
+            x: vec![0, 1, 2, 3],
+            next: vec![1, 2, 3, 3],
+            step_out: vec![None; 4],
+        },
+        Prog {
+            name: "macro-invoked-twice",
+            source: ".macro m() {\ninx\n}\n.test \"t\" {\nm()\niny\nm()\nbrk\n}\n",
+            lines: vec![2, 6, 2, 8],
+            x: vec![0, 1, 1, 2],
+            next: vec![1, 2, 3, 3],
+            step_out: vec![None; 4],
+        },
+        // a subroutine that ends in a computed jump of the "push the address, rts" kind: that `rts` returns nowhere,
+        // `next` over the call ends behind the call all the same (stepOut is only asked where the top of the stack is
+        // the return address: the statement does not say what leaving a subroutine means while it has data pushed)
+        Prog {
+            name: "rts-dispatch",
+            source: ".test \"t\" {\njsr s\ninx\nbrk\ns:\nlda #>tgt\npha\nlda #<tgt\npha\nrts\nh:\niny\nrts\n.const tgt = h - 1\n}\n",
+            lines: vec![2, 6, 7, 8, 9, 10, 12, 13, 3, 4],
+            x: vec![0, 0, 0, 0, 0, 0, 0, 0, 0, 1],
+            next: vec![8, 2, 3, 4, 5, 6, 7, 8, 9, 9],
+            step_out: vec![None, Some(8), Some(8), None, None, None, Some(8), Some(8), None, None],
+        },
         // the same subroutine called twice: the second stop at its breakpoint is at the same address as the first
         Prog {
             name: "subroutine-called-twice",
